@@ -52,13 +52,14 @@ TemplateFound(ic, tpl, v) ==
   IF ic THEN Lower(v) \in {"k-ab", "xk-ab9"}
   ELSE IF tpl = "k-@m" THEN v \in {"k-ab", "xk-ab9"} ELSE v \in {"K-ab"}
 
-\* instants: [t |-> order number, tod |-> seconds of day, wd |-> weekday]; "" = request has no date
-Instant(a) == CASE a = "2024-03-10T11:59:59Z" -> [t |-> 1, tod |-> 43199, wd |-> "Sun"]
+\* instants: [t |-> order number, tod |-> whole seconds of day, wd |-> weekday]; "" = request has no date; the instants
+\* just before a boundary carry a sub-second part (a JSON hand-off must not round them across the boundary)
+Instant(a) == CASE a = "2024-03-10T11:59:59.750Z" -> [t |-> 1, tod |-> 43199, wd |-> "Sun"]
                 [] a = "2024-03-10T12:00:00Z" -> [t |-> 2, tod |-> 43200, wd |-> "Sun"]
                 [] a = "2024-03-10T12:30:00Z" -> [t |-> 3, tod |-> 45000, wd |-> "Sun"]
-                [] a = "2024-03-10T12:59:59Z" -> [t |-> 4, tod |-> 46799, wd |-> "Sun"]
+                [] a = "2024-03-10T12:59:59.750Z" -> [t |-> 4, tod |-> 46799, wd |-> "Sun"]
                 [] a = "2024-03-10T13:00:00Z" -> [t |-> 5, tod |-> 46800, wd |-> "Sun"]
-                [] a = "2024-03-10T23:59:59Z" -> [t |-> 6, tod |-> 86399, wd |-> "Sun"]
+                [] a = "2024-03-10T23:59:59.750Z" -> [t |-> 6, tod |-> 86399, wd |-> "Sun"]
                 [] a = "2024-03-11T00:00:00Z" -> [t |-> 7, tod |-> 0, wd |-> "Mon"]
                 [] a = "2024-03-11T12:30:00Z" -> [t |-> 8, tod |-> 45000, wd |-> "Mon"]
 TimeOfDay(s) == CASE s = "12:00:00" -> 43200 [] s = "13:00:00" -> 46800 [] s = "00:00:00" -> 0 [] s = "23:59:59" -> 86399
